@@ -177,6 +177,33 @@ def python_verdict(text):
     return fails, '; '.join(why)
 
 
+def param_separators(lang, text):
+    """Kotlin / Scala primary-constructor parameter lists: `Name (` ... `)` with one parameter per line; every
+    parameter but the last is followed by a comma, the last is not (the line-oriented template recognisers of
+    lib/extract.py do not look at the separators)."""
+    bad = []
+    lines = text.split('\n')
+    i = 0
+    head = re.compile(r'^(data class|value class|case class) [^\n]*\($')
+    while i < len(lines):
+        if head.match(lines[i]):
+            j = i + 1
+            params = []
+            while j < len(lines) and not lines[j].startswith(')'):
+                l = lines[j]
+                st = l.strip()
+                if st and not st.startswith('//') and not st.startswith('@'):
+                    params.append((j + 1, l))
+                j += 1
+            for k, (no, l) in enumerate(params):
+                last = k == len(params) - 1
+                if l.rstrip().endswith(',') == last:
+                    bad.append(f'line {no}: {"unexpected" if last else "missing"} `,` after a constructor parameter')
+            i = j
+        i += 1
+    return bad
+
+
 def observe(lang, text):
     """declaring positions + template conformance from the REAL text"""
     o = extract.extract(lang, text)
@@ -195,6 +222,11 @@ def observe(lang, text):
     if o['unparsed'] or o['anomalies']:
         fails.append('template')
         why += [str(x) for x in (o['unparsed'] + o['anomalies'])[:4]]
+    if lang in ('kotlin', 'scala'):
+        ps = param_separators(lang, text)
+        if ps:
+            fails.append('separators')
+            why += ps[:3]
     if lang == 'python':
         f, w = python_verdict(text)
         fails += f
